@@ -252,11 +252,15 @@ func c19Methods() handler.Map {
 		return "noparams", nil
 	}
 	return handler.Map{
-		"ok":     echo,
-		"a/ok":   echo,
-		"inv":    func(context.Context, *jrpc2.Request) (any, error) { return nil, jrpc2.Errorf(jrpc2.InvalidParams, "bad params") },
-		"plain":  func(context.Context, *jrpc2.Request) (any, error) { return nil, errors.New("plain failure") },
-		"nf":     func(context.Context, *jrpc2.Request) (any, error) { return nil, jrpc2.Errorf(jrpc2.MethodNotFound, "handler says no such method") },
+		"ok":   echo,
+		"a/ok": echo,
+		"inv": func(context.Context, *jrpc2.Request) (any, error) {
+			return nil, jrpc2.Errorf(jrpc2.InvalidParams, "bad params")
+		},
+		"plain": func(context.Context, *jrpc2.Request) (any, error) { return nil, errors.New("plain failure") },
+		"nf": func(context.Context, *jrpc2.Request) (any, error) {
+			return nil, jrpc2.Errorf(jrpc2.MethodNotFound, "handler says no such method")
+		},
 		"custom": func(context.Context, *jrpc2.Request) (any, error) { return nil, jrpc2.Errorf(7, "custom code") },
 		"data": func(context.Context, *jrpc2.Request) (any, error) {
 			return nil, jrpc2.Errorf(jrpc2.InvalidRequest, "with data").WithData(map[string]int{"k": 1})
